@@ -22,6 +22,11 @@ pub struct LinCfg {
     pub print_weight: u32,
     /// never let an environment grow beyond this many variables
     pub hard_cap: usize,
+    /// probability (/256) that a definition keeps its environment at least `floor` variables wide
+    /// (forced literals / lets that do not count against the size budget), so that everything
+    /// else happens in spill positions
+    pub wide: u32,
+    pub floor: (usize, usize),
 }
 
 impl Default for LinCfg {
@@ -36,6 +41,8 @@ impl Default for LinCfg {
             max_fields: 8,
             print_weight: 10,
             hard_cap: 100,
+            wide: 0,
+            floor: (0, 0),
         }
     }
 }
@@ -73,6 +80,10 @@ pub struct GenLin<'a> {
     pub stats: LinStats,
     /// ids of integer variables known to be non-zero (safe divisors)
     nonzero: Vec<usize>,
+    /// minimal environment width of the current definition (see LinCfg::wide)
+    floor: usize,
+    /// forced statements left for the current definition (bounds the widening)
+    forced_left: usize,
 }
 
 fn ident(name: &str, id: usize) -> ax::Identifier {
@@ -89,7 +100,7 @@ fn ctx(b: Vec<ax::ContextBinding>) -> ax::TypingContext {
 
 impl<'a> GenLin<'a> {
     pub fn new(buf: &'a [u8], cfg: LinCfg) -> Self {
-        GenLin { c: Chooser::new(buf), cfg, types: vec![], next_id: 0, sigs: vec![], cur_def: 0, stats: LinStats::default(), nonzero: vec![] }
+        GenLin { c: Chooser::new(buf), cfg, types: vec![], next_id: 0, sigs: vec![], cur_def: 0, stats: LinStats::default(), nonzero: vec![], floor: 0, forced_left: 0 }
     }
 
     fn fresh(&mut self, base: &str) -> ax::Identifier {
@@ -394,6 +405,12 @@ impl<'a> GenLin<'a> {
             return self.gen_terminator(env);
         }
         let room = env.len() < self.cfg.max_env;
+        let forced = room && env.len() < self.floor && self.forced_left > 0;
+        if forced {
+            self.forced_left -= 1;
+        }
+        // forced statements are free
+        let size = if forced { size + 1 } else { size };
         let exts = Self::ext_vars(&env);
         let objs: Vec<usize> = env.iter().enumerate().filter(|(_, b)| b.chi == ax::Chirality::Prd).map(|(i, _)| i).collect();
         let w = [
@@ -407,7 +424,8 @@ impl<'a> GenLin<'a> {
             if exts.is_empty() { 0 } else { 10 },                                    // 7 if
             3,                                                                       // 8 terminator early
         ];
-        match self.c.weighted(&w) {
+        let choice = if forced { if self.c.prob(170) { 0 } else { 3 } } else { self.c.weighted(&w) };
+        match choice {
             0 => {
                 let v = self.fresh("x");
                 let n = self.lit_value();
@@ -614,6 +632,12 @@ impl<'a> GenLin<'a> {
         for i in 0..self.sigs.len() {
             self.cur_def = i;
             self.nonzero.clear();
+            self.floor = if self.cfg.wide > 0 && self.c.prob(self.cfg.wide) {
+                self.cfg.floor.0 + self.c.choose(self.cfg.floor.1 - self.cfg.floor.0 + 1)
+            } else {
+                0
+            };
+            self.forced_left = 3 * self.floor + 8;
             let env = self.sigs[i].params.clone();
             let size = if i == 0 { self.cfg.size } else { self.cfg.size / 2 };
             let body = self.gen_stmt(env.clone(), size);
